@@ -45,7 +45,8 @@ META = {
                           'medium_literal_file', 'medium_pickle', 'digests_compared',
                           'Context.__getstate__', 'Context.__setstate__', 'Lattice.__getstate__',
                           'Lattice.__setstate__', 'Relation.__reduce__', 'Vectors.__reduce__',
-                          'child_processes', 'sibling_histories', 'returned_dict_edited_in_place'],
+                          'child_processes', 'sibling_histories', 'returned_dict_edited_in_place',
+                          'earlier_unpickled_contexts_requeried', 'same_label_histories'],
     'shards': {'quick': 16, 'thorough': 16},
     'case_cpu_s': {'quick': 600, 'thorough': 3000},
     'assumptions': ['byte-level layout of JSON/pickle and container types (list vs tuple) are not judged'],
@@ -294,7 +295,53 @@ def size_sweep(tier):
         yield dict(gen.case(f'SWEEP:random30x15', gen.rnd_rows(rng, 30, 15, .5), 15, 'unicode'), sweep=True)
 
 
+def run_same_labels(concepts, case, spec):
+    """Several contexts with identical label tuples and different tables, all pickled, then all
+    loaded into this process (in-process and from files, as contexts and as lattices): each
+    must keep answering from its own table whatever was loaded after it."""
+    rng = random.Random(f"{spec['seed']}/c11same/{case['n']}")
+    n, m = rng.randint(2, 5), rng.randint(2, 5)
+    objects, properties = gen.labels(n, m, rng.choice(['shared', 'plain', 'unicode']))
+    shadows, blobs = [], []
+    for k in range(4):
+        rows = gen.rnd_rows(rng, n, m, rng.choice([.3, .5, .7]))
+        sh = Shadow(objects, properties, rows)
+        ctx = call(concepts.Context, list(objects), list(properties), sh.triple()[2])
+        if ctx is RAISED:
+            return
+        obj = ctx if k % 2 == 0 else (ctx, call(lambda: ctx.lattice))
+        blobs.append(pickle.dumps(obj, protocol=rng.choice([2, 4, 5])))
+        shadows.append(sh)
+        del ctx, obj
+    loaded = []
+    for blob in blobs:
+        back = call(pickle.loads, blob)
+        if back is RAISED:
+            COL.violation('same-labels', 'same-labels:loads-raised', 'an object', 'exception')
+            return
+        loaded.append(back[0] if isinstance(back, tuple) else back)
+    COL.count('same_label_histories')
+    for ctx, sh in zip(loaded, shadows):
+        COL.count('judged_unpickled')
+        if not same_triple('same-labels', ctx, sh):
+            continue
+        for sub in ([objects[0]], list(objects[:2]), []):
+            got = call(ctx.intension, sub)
+            want = sh.plabels(sh.intension(sh.omask(sub)))
+            if got is RAISED or tuple(got) != want:
+                COL.violation('same-labels', 'same-labels:derivation-of-a-loaded-context-follows-another-table',
+                              {'objects': sub, 'intension': want, 'rows': list(sh.rows)},
+                              None if got is RAISED else tuple(got))
+                break
+        lat = common.get_lattice(ctx)
+        if lat is not RAISED:
+            with core.monitor_code():
+                judge_lattice(lat, ctx, sh, CAP[spec['tier']], 'same_labels_lattice')
+
+
 def cases(tier, seed, spec):
+    for k in range(8 if tier == 'quick' else 200):
+        yield {'kind': 'same-labels', 'n': k}
     yield {'kind': 'siblings', 'n': 0}
     yield {'kind': 'siblings', 'n': 1}
     yield from size_sweep(tier)
@@ -341,6 +388,33 @@ def same_triple(where, c2, sh):
         COL.violation('driver', f'{where}:reloaded-context-has-another-triple', sh.triple(), got)
         return False
     return True
+
+
+UNPICKLED = []      # (context loaded from a pickle earlier, its shadow)
+
+
+def requery_unpickled(rng):
+    """Contexts unpickled earlier (often with the very same labels as the one just loaded) must
+    still answer from their own table."""
+    if not UNPICKLED:
+        return
+    old, osh = rng.choice(UNPICKLED)
+    COL.count('earlier_unpickled_contexts_requeried')
+    for _ in range(3):
+        sub = rng.sample(list(osh.objects), rng.randint(0, min(osh.n, 4)))
+        got = call(old.intension, sub)
+        want = osh.plabels(osh.intension(osh.omask(sub)))
+        if got is RAISED or tuple(got) != want:
+            COL.violation('unpickled-pool', 'unpickled-pool:derivation-of-earlier-unpickled-context-changed',
+                          {'objects': sub, 'intension': want}, None if got is RAISED else tuple(got))
+            return
+        subp = rng.sample(list(osh.properties), rng.randint(0, min(osh.m, 3)))
+        got = call(old.extension, subp)
+        want = osh.olabels(osh.extension(osh.pmask(subp)))
+        if got is RAISED or tuple(got) != want:
+            COL.violation('unpickled-pool', 'unpickled-pool:derivation-of-earlier-unpickled-context-changed',
+                          {'properties': subp, 'extension': want}, None if got is RAISED else tuple(got))
+            return
 
 
 def run_siblings(concepts, case, spec):
@@ -396,6 +470,8 @@ def run_siblings(concepts, case, spec):
 def run_case(concepts, case, spec):
     if case.get('kind') == 'siblings':
         return run_siblings(concepts, case, spec)
+    if case.get('kind') == 'same-labels':
+        return run_same_labels(concepts, case, spec)
     C = concepts.Context
     cap = CAP[spec['tier']]
     work = spec['workdir']
@@ -497,6 +573,10 @@ def run_case(concepts, case, spec):
             COL.count('judged_unpickled')
             if what == 'context':
                 same_triple('pickle-context', back, sh)
+                requery_unpickled(rng)
+                UNPICKLED.append((back, sh))
+                if len(UNPICKLED) > 6:
+                    UNPICKLED.pop(0)
                 if not big:
                     l2 = common.get_lattice(back)
                     if l2 is not RAISED:
